@@ -122,6 +122,10 @@ CLAIMS["C15"] = ("fault_enumeration",
     "fault injection over every render-error site (k-th Fill, k-th extender call, k-th output Write as error or short write, k-th terminal-size query) with small k covered many times per site kind and larger k at random, crossed with generated layouts of synchronised decorators, slow decorators and directed holds between width exchange and flush, three refresh regimes; oracle: hang verdict for Wait, the injected error exactly once in the debug output and nothing else, no output after the failing cycle, all bars stopped, late calls see a finished container",
     "fault sites and k are covered by generator weighting rather than a nested loop; schedules inside a perturbation window are sampled",
     "property-based fault injection (rapid) with a hang oracle and exactly-once error accounting")
+CLAIMS["C16"] = ("exploration",
+    "generated scenarios of every class (concurrent clients, cancel/Shutdown, render faults, early refresh, pop, queued bars, n>q, listeners, notifier) run 1-4 times in a row per case; after Wait and the notifier read, the goroutine dump is polled and any goroutine with a library frame or created by library code that stays blocked with an unchanged stack is a leak; accumulation over repeated containers is covered by the same verdict",
+    "leak = blocked and stack-stable over 150 ms with nothing else running; runnable leftovers make a case inconclusive; containers run one after another, not overlapping",
+    "property-based testing (rapid) with a goroutine-set invariant oracle")
 CLAIMS["C19"] = ("exploration",
     "differential PBT: scripted underlying readers/writers of all four dynamic types consumed through the proxy and bare by the same generated consumer; caller-visible results, underlying-visible calls, delivered bytes, Close counts, fast-path offer, bar accounting and moving-average samples compared",
     "the bare twin plays the same script; sample durations are bounded from below only",
